@@ -360,6 +360,27 @@ def run(ck, ctx):
             no_outliving_writes(ck, "R20.4", name, r1)
     ck.guard(r204, "R20.4")
 
+    # ---------------------------------------------------------------- R20.7 the stages leave their arguments alone
+    def r207():
+        """The pairwise laws of the statement (sqrt(N) in the antenna count, linearity in the field and the energy,
+        event order) compare two evaluations on the same batch: they hold only if an evaluation does not turn the
+        caller's field array (or any other argument) into something else."""
+        from .effects import writes
+        for name in ("EASRadio.__call__", "calculate_snr"):
+            r1 = R.runs[name][0]
+            ws = writes(r1, kinds=("input",))
+            for e, hit in ws:
+                f = e.funcs()[-1] if e.funcs() else name
+                tgt = ", ".join(sorted({x.attr.split("#")[0] for x in hit if x.op == "Input"}))
+                ck.ob("R20.7", f"{name}: argument '{tgt}' still holds what the caller put there after the call "
+                      f"[{f} at {e.where()}]", False, e.node, f,
+                      f"{e.data.get('how')} writes into an object that may be the caller's array (np.asarray of a "
+                      "float array is that array)", construct=f"{f}: in-place {e.data.get('how')} on parameter {tgt}")
+            ck.ob("R20.7", f"{name}: no argument is modified on any path (a second evaluation on the same batch sees "
+                  "the same fields)", not ws, r1.value, name,
+                  f"{sum(1 for e in r1.effects if e.kind == 'write')} in-place operations inspected")
+    ck.guard(r207, "R20.7")
+
 
 def _strip_phi_updates(n):
     while n.op == "Phi":
